@@ -569,8 +569,12 @@ def cylinder_clauses(ps, T, radius, height, sigbase, who):
     rad = np.hypot(L[:, 0], L[:, 1])
     over_r = float(rad.max() - r)
     over_z = float(np.abs(L[:, 2]).max() - hgt / 2.0)
-    chk(over_r <= ps.tol + 1e-12 * r, f"{sigbase}|{who}|radial", lambda: f"point {over_r:.3e} outside radius {r:.6e} (tol {ps.tol:.3e})")
-    chk(over_z <= ps.tol, f"{sigbase}|{who}|axial", lambda: f"point {over_z:.3e} beyond half height {hgt/2:.6e} (tol {ps.tol:.3e})")
+    # volume_from_angles rotates the hull points with transformations.transform_points, whose documented identity
+    # shortcut (matrix within 1e-8 of I is not applied) is reachable when the optimiser ends within 1e-8 rad of the
+    # z axis: same narrow allowance as for the boxes
+    sa = shortcut_allowance(R, ps)
+    chk(over_r <= ps.tol + sa + 1e-12 * r, f"{sigbase}|{who}|radial", lambda: f"point {over_r:.3e} outside radius {r:.6e} (tol {ps.tol + sa:.3e})")
+    chk(over_z <= ps.tol + sa, f"{sigbase}|{who}|axial", lambda: f"point {over_z:.3e} beyond half height {hgt/2:.6e} (tol {ps.tol + sa:.3e})")
     return int((rad < r * (1 - 1e-6)).sum())
 
 
